@@ -3,6 +3,7 @@ import SgModel.Lemmas.OehLca
 import SgModel.Lemmas.OehFast
 import SgModel.Lemmas.OehLcaNested
 import SgModel.Lemmas.OehChain
+import SgModel.Lemmas.OehDecomp
 /-!
 # C28 — hierarchy index answers equal the brute-force poset answers
 
@@ -223,9 +224,14 @@ theorem C28_rollup_minmax_after_updates {P : Poset} {h : Nat → Nat} (F : IsFor
         = specRollup P (us.foldl updMeasure m) .max y :=
   rollup_minmax_of_inv F (ninvmm_foldl F us _ _ (ninvmm_build F m hm)) y hy
 
-/-! ## stage 4 — chain encoding (partial)
+/-! ## stage 4 — chain encoding
 
-Full statement (kept visible): `∀ P, Acyclic P h → ∀ x y < n, (buildChain P).subsumes x y =
+The subsumption test and the LCA are proved unconditionally (`C28_chain_reach_iff`,
+`C28_chain_lca`, via `C28_topo_order_wf` and `C28_chain_decomposition_wf`); the two `_partial`
+theorems are the conditional forms they are assembled from.  Still differential only for this
+encoding: `descendants` (suffix enumeration) and the per-chain suffix-fold roll-ups.
+
+Statement of the conditional form: `∀ P, Acyclic P h → ∀ x y < n, (buildChain P).subsumes x y =
 specSubsumes P x y`.  Proved here under two *executable* hypotheses about the two graph
 algorithms the encoding rests on — `topoOkB P P.topoUp` (Kahn's sort lists every node once,
 children before parents) and `chainsOkB P (buildChain P)` (every node sits where `chain_of`
@@ -246,6 +252,33 @@ theorem C28_chain_lca_partial {P : Poset} {h : Nat → Nat} (A : Acyclic P h)
     (x y : Nat) (hx : x < P.n) (hy : y < P.n) :
     lcaBy P.n (buildChain P).subsumes x y = specLca P x y :=
   lcaBy_eq_specLca P _ (fun a b ha hb => chain_subsumes_iff_reach A ht hc a b ha hb) x y hx hy
+
+/-- **Kahn's sort is a topological order**: on every DAG the model's `topo_sort_up` lists every
+node exactly once, only nodes, and every child before its parents (first hypothesis of
+`C28_chain_reach_iff_partial`, now discharged for all inputs) -/
+theorem C28_topo_order_wf {P : Poset} {h : Nat → Nat} (D : IsDag P h) :
+    topoOkB P P.topoUp = true := topoUp_ok D
+
+/-- **the greedy chain decomposition is well-formed**: on every DAG every node sits on the chain
+and at the position `chain_of` records, and every chain is a downward path (second hypothesis,
+discharged for all inputs) -/
+theorem C28_chain_decomposition_wf {P : Poset} {h : Nat → Nat} (D : IsDag P h) :
+    chainsOkB P (buildChain P) = true := chains_ok D
+
+/-- **chain subsumption is reachability**, unconditionally on every DAG
+(`chain_reach_sound_complete`) -/
+theorem C28_chain_reach_iff {P : Poset} {h : Nat → Nat} (D : IsDag P h)
+    (x y : Nat) (hx : x < P.n) (hy : y < P.n) :
+    (buildChain P).subsumes x y = specSubsumes P x y :=
+  chain_subsumes_iff_reach D.toAcyclic (topoUp_ok D) (chains_ok D) x y hx hy
+
+/-- chain LCA = minimal common upper bounds, unconditionally on every DAG -/
+theorem C28_chain_lca {P : Poset} {h : Nat → Nat} (D : IsDag P h)
+    (x y : Nat) (hx : x < P.n) (hy : y < P.n) :
+    lcaBy P.n (buildChain P).subsumes x y = specLca P x y :=
+  lcaBy_eq_specLca P _
+    (fun a b ha hb => chain_subsumes_iff_reach D.toAcyclic (topoUp_ok D) (chains_ok D) a b ha hb)
+    x y hx hy
 
 /-- the hypotheses hold on a concrete diamond (non-vacuity) -/
 example : topoOkB ⟨4, [(0, 1), (2, 1), (3, 0), (3, 2)]⟩ (Poset.topoUp ⟨4, [(0, 1), (2, 1), (3, 0), (3, 2)]⟩) = true
